@@ -786,22 +786,40 @@ func emit(r *hx.Run, sub uint64, res result) (failed bool) {
 	return end != ""
 }
 
+// unexplained counts oracle failures that are not the recorded window race; once there are plenty of them
+// the remaining cases are skipped (a broken writer makes every case wait for its time-out bound).
+var unexplained atomic.Int64
+
+const unexplainedBudget = 12
+
 func runBatch(r *hx.Run, cs []cfg, par int) {
 	res := make([]result, len(cs))
+	ran := make([]bool, len(cs))
 	sem := make(chan struct{}, par)
 	var wg sync.WaitGroup
 	for i, c := range cs {
+		if unexplained.Load() >= unexplainedBudget {
+			r.Count("skipped-after-many-failures")
+
+			continue
+		}
 		wg.Add(1)
 		sem <- struct{}{}
 		go func(i int, c cfg) {
 			defer wg.Done()
 			defer func() { <-sem }()
 			res[i] = result{c, run(c)}
+			ran[i] = true
+			if _, end := oracle(res[i].ev); end != "" && !windowRace(res[i].ev) {
+				unexplained.Add(1)
+			}
 		}(i, c)
 	}
 	wg.Wait()
 	for i := range res {
-		emit(r, res[i].c.seed, res[i])
+		if ran[i] {
+			emit(r, res[i].c.seed, res[i])
+		}
 	}
 }
 
@@ -853,7 +871,10 @@ func main() {
 		forced = append(forced, cfg{kind: "window-block", q: q, b: 1 + q%4, t: 1, p: q + 1, o: q + 1, n: 1, seed: s})
 	}
 	runBatch(r, forced, 4)
-	n := 1200 * r.Scale
+	n := 2500
+	if r.Scale > 1 {
+		n = 30000
+	}
 	var cs []cfg
 	for i := 0; i < n; i++ {
 		rng, s := r.Rng.Fork()
